@@ -100,8 +100,25 @@ class ExecBase:
             if isinstance(v, Raised):
                 out.append((st, v))
             else:
-                out.extend(fn(st, v))
+                try:
+                    out.extend(fn(st, v))
+                except Unsupported as e:
+                    if not self._dead_path(st, e):
+                        raise
         return out
+
+    def _dead_path(self, st, e):
+        """An unsupported construct met on a path whose condition the quick feasibility query
+        left open (solver budget under load): decide the path condition with a generous budget;
+        a path that cannot be taken is dropped instead of failing the whole contract."""
+        from .state import definitely_infeasible
+
+        if getattr(e, "_live", False):
+            return False
+        if definitely_infeasible(st.pc):
+            return True
+        e._live = True
+        return False
 
     def ev_list(self, nodes, st):
         """evaluate expressions left to right -> [(st, [vals] | Raised)]"""
@@ -131,7 +148,11 @@ class ExecBase:
                 if out is not None:
                     nxt.append((s, out))
                 else:
-                    nxt.extend(self.exec_stmt(stmt, s))
+                    try:
+                        nxt.extend(self.exec_stmt(stmt, s))
+                    except Unsupported as e:
+                        if not self._dead_path(s, e):
+                            raise
             results = nxt
             if len(results) > 4000:
                 raise Unsupported("path explosion (>4000 paths)")
